@@ -100,7 +100,7 @@ fn float_event(case: &Value, ty: &str, u: &[(f64, f64)], v: &[(f64, f64)], res: 
 
 /// Sequence on ONE object (integer data): the object is used as dividend ("div") and as divisor ("divby") of a fixed second polynomial,
 /// mutated through IndexMut / coeffs() / trim, and used again; each result is judged against the CURRENT coefficients (tracked in a plain Vec).
-fn run_seq<T: Copy + ohsl::Number + ohsl::Signed + std::fmt::Debug + 'static>(case: &Value, out: &mut Out, ty: &str, mk: &dyn Fn(i64) -> T, back: &dyn Fn(T) -> Option<Rat>) {
+fn run_seq<T: Copy + ohsl::Number + ohsl::Signed + std::fmt::Debug + Send + Sync + 'static>(case: &Value, out: &mut Out, ty: &str, mk: &dyn Fn(i64) -> T, back: &dyn Fn(T) -> Option<Rat>) {
     let mut mv: Vec<i64> = ivec(&case["u"]);
     let mut obj = Polynomial::<T>::new(mv.iter().map(|x| mk(*x)).collect());
     let wv: Vec<i64> = ivec(&case["w"]); let w = Polynomial::<T>::new(wv.iter().map(|x| mk(*x)).collect());
